@@ -175,7 +175,7 @@ def split_entries(model_ok):
     """model ("ok" (entries) restlen alloc) -> list of dicts"""
     out = []
     for e in model_ok[1]:
-        out.append({'name': e[0], 'bytes': e[1], 'wfc': e[2], 'wfs': e[3], 'has_scope': e[4], 'names_ok': e[5], 'size': e[6], 'canon': e[7]})
+        out.append({'name': e[0], 'bytes': e[1], 'wfc': e[2], 'wfs': e[3], 'has_scope': e[4], 'names_ok': e[5], 'size': e[6], 'names_ok_or_known': e[7], 'canon': e[8]})
     return out
 
 def mutants(img, r, positions=None, limit=None):
